@@ -57,8 +57,14 @@ pub fn catch<T>(f: impl FnOnce() -> T) -> Result<T, String> {
     })
 }
 
+/// where the last panic happened (panics of the code under test are expected and caught; a panic of the harness
+/// itself ends the run, and then this says where)
+pub static LAST_PANIC_AT: std::sync::Mutex<String> = std::sync::Mutex::new(String::new());
+
 pub fn quiet_panics() {
-    std::panic::set_hook(Box::new(|_| {}));
+    std::panic::set_hook(Box::new(|info| {
+        if let (Some(l), Ok(mut g)) = (info.location(), LAST_PANIC_AT.lock()) { *g = format!("{}:{}", l.file(), l.line()); }
+    }));
 }
 
 pub fn hex(b: &[u8]) -> String {
